@@ -15,7 +15,7 @@ CLAIMS = {
                 "BurstForwarder.forward_msg is reached exactly under {peer is not sender, peer.running, peer Rx freq(FN) == "
                 "sender Tx freq(FN)}, once per peer, over the full list; frequency resolvers return the fixed value iff no "
                 "hopping else element 0/1 of resolve(fn); SETFH builds (Rx,Tx) pairs in documented order; non-running "
-                "transceivers do not transmit; every transceiver ticks; only the forwarder delivers. The list object handed to the forwarder stays the registration list: no owner attribute on the path to it is rebound by code that can run after the hand-over (R6); SETFH pairing is also folded for non-monotone witness channel lists.",
+                "transceivers do not transmit; every transceiver ticks; only the forwarder delivers. The list object handed to the forwarder stays the registration list: no owner attribute on the path to it is rebound by code that can run after the hand-over (R6); SETFH pairing is also folded for non-monotone witness channel lists. The getters are decided by folding them over {hopping, not hopping} with opaque frequencies; enable_fh over both outcomes of the HoppingParams constructor (a refused SETFH leaves the configuration in use).",
         "note": TB + "Not decided: correctness of HoppingParams.resolve (C07), what the recipient does after delivery (C10, C18).",
     },
     "C03": {
@@ -33,7 +33,7 @@ CLAIMS = {
                 "field values incl. None) accepted by validate() equals the protocol ranges of spec/ranges.json exactly (both "
                 "inclusions, per field and as a whole); every reachable rejection raises ValueError and cannot raise another class "
                 "while building its message or comparing a None field; validate() dominates every buffer write of gen_msg; send() is "
-                "unreachable from send_msg's rejection handler and nothing sends on a data interface bypassing send_msg. Validation conditions that call a pure repository function on one integer field are folded on critical points (purity of the callee checked).",
+                "unreachable from send_msg's rejection handler and nothing sends on a data interface bypassing send_msg. Validation conditions that call a pure repository function on one integer field are folded on critical points (purity of the callee checked). 'Sending' is closed over the self-calls of the interface's class family (a retry through send_msg counts).",
         "note": TB + "Fields are assumed to hold ints or None (the property's quantifier). Validity of burst *contents* is not constrained by the statement.",
     },
     "C12": {
@@ -43,7 +43,7 @@ CLAIMS = {
                 "clock-link and generator start/stop actions equal the specified decision table over all 16 truth assignments, link "
                 "update first; POWERON succeeds iff not running and ready (ready = tuned or hopping), POWEROFF always; only parse_cmd "
                 "issues power events; interface ports are base+2*idx+{102,2}/{101,1} and base+{100,0} in UDPLink's (remote, bind) "
-                "order; children get no clock and are linked to their parent; MS does not manage children. Application.trx_def (regular expression included) is folded for witness --trx definitions with 0..3-digit child indexes (R7).",
+                "order; children get no clock and are linked to their parent; MS does not manage children. Application.trx_def (regular expression included) is folded for witness --trx definitions with 0..3-digit child indexes (R7). The transceiver factory (append_trx / append_child_trx) is folded with the constructor as recording oracle: every keyword reaches the constructor, parents get the shared clock, children none.",
         "note": TB + "Not decided: the iff between `running` and the whole command history as such (follows from the single-writer rule and the decision tables by induction, argued not checked); trxcon's socket plan is cross-checked where cfront is available.",
     },
     "C18": {
@@ -72,7 +72,7 @@ CLAIMS = {
                 "data (decode, int(), subscripts, unpack, %, randint, sleep) or by a reachable raise can leave recv_data_msg, handle_rx or the "
                 "capture reader; integers stored from commands into attributes used by partial operations on other paths (clock thread) are "
                 "range-checked where stored or guarded where used; in trxcon a strchr() result is never offset/dereferenced without a NULL "
-                "test and receive-buffer stores/offsets stay in bounds. Results of strchr-like calls used on the spot are flagged; raises guarded by a type test that the call chain's static argument type falsifies, or by a condition interval arithmetic over validated attribute ranges decides false, are unreachable; the header-description helpers used in the rejection log lines are total on messages with None fields (R9).",
+                "test and receive-buffer stores/offsets stay in bounds. Results of strchr-like calls used on the spot are flagged; raises guarded by a type test that the call chain's static argument type falsifies, or by a condition interval arithmetic over validated attribute ranges decides false, are unreachable; the header-description helpers used in the rejection log lines are total on messages with None fields (R9). R10: every llist_entry(<head>.next) in trxcon's trx_if.c is dominated by !llist_empty(&<head>); str.encode(<narrow codec>) of text carrying received characters counts as a partial operation in the escape analysis.",
         "note": TB + "Not decided: correctness of later behaviour beyond 'no exception/UB path and guarded state stores'; OS errors; resource exhaustion. Known finding D13 (FAKE_TRXC_DELAY overflow) is listed in known_findings.json.",
     },
     "C09": {
@@ -86,13 +86,13 @@ CLAIMS = {
         "note": TB + "Not decided: actual tick times under any handler-duration pattern (needs a clock), thread scheduling.",
     },
     "C15": {
-        "technique": "forward substitution (writer/reader sibling agreement of the record framing), guard literals for short-read detection, decision tables and statement-order rules of skip/count/append",
+        "technique": "forward substitution (writer/reader sibling agreement of the record framing), guard literals for short-read detection, decision tables and statement-order rules of skip/count/append; typestate dataflow of the file position; folds of append_msg / append_all with the file object as recording oracle",
         "text": "Decides for every stored sequence and truncation offset the framing premises: writer emits tag(by class) + '>H' length of "
                 "gen_msg() + that message, reader maps the same tags to the same classes and reads the length with the same format at "
                 "hdr[1:3], HDR_LENGTH = 3, tags distinct, largest message fits 16 bits; a record is returned only if header and body "
                 "were read completely (short reads and EOF give None, unparsable bodies False, never an exception); skip advances idx "
                 "times by header + stored length with a relative seek from a rewound file; parse_all's loop ends on EOF, skips "
-                "unparsable records, stops at count; append writes exactly dump_msg in list order. R1 is decided by folding writer and reader on 12 witness pairs (both classes, payloads of 0..751 octets): record = header + payload as produced by the plain gen_msg(), header read back as (same class, same length), foreign classes refused, unknown tags False.",
+                "unparsable records, stops at count; append writes exactly dump_msg in list order. R1 is decided by folding writer and reader on 12 witness pairs (both classes, payloads of 0..751 octets): record = header + payload as produced by the plain gen_msg(), header read back as (same class, same length), foreign classes refused, unknown tags False. R6: typestate of the capture file's position ({unknown, at end}) over the CFG of every DATADumpFile method: every write happens at the end of the file on every path (seek(0, 2) since the last read / seek), and nobody outside the class writes to the file; what _parse_msg returns is the message object the record's body was parsed into; the open mode keeps stored messages.",
         "note": TB + "Not decided: field equality of what is returned (C01's round trip); behaviour on files containing unparsable records beyond skip/continue.",
     },
     "C01": {
@@ -102,7 +102,7 @@ CLAIMS = {
                 "TN in bits 2..0 of octet 0 without overlap, burst at HDR_LEN on both sides); every validated value fits its wire width; the four "
                 "256-entry soft-bit tables are mutually inverse on -127..127 and map bits to full-confidence soft bits of the matching sign; "
                 "parse_mts(gen_mts(x)) == x for all 112 valid (modulation, TSC set, TSC) combinations and NOPE, all 256 octets parse; "
-                "burst-length and legacy-padding rules give back the sent length for every encodable length. The datagram returned by gen_msg() is storage created during the call (R6: not a class/instance/module-level buffer).",
+                "burst-length and legacy-padding rules give back the sent length for every encodable length. The datagram returned by gen_msg() is storage created during the call (R6: not a class/instance/module-level buffer). R7: memoising decorators are sound only over attributes never stored after construction (a per-object cached HDR_LEN is stale once parse_msg re-reads the version); the soft-bit coding on the wire and its inverse are folded over all 256 octet values.",
         "note": TB + "Not decided: equality of every field for every concrete message (the runtime round trip itself); fields not on the wire (mod_type on v0).",
     },
     "C04": {
@@ -122,7 +122,7 @@ CLAIMS = {
                 "FAKE_RSSI window), ToA256 = window value - 256 x sender TA, C/I from its window, each window = base or "
                 "randint(base - thr, base + thr); on v1 modulation = pick_by_bl(len(sent burst)), TSC/TSC set from TrainingSeqGMSK.pick "
                 "for GMSK else 0; pick() compares the slices [61:87], [8:49], [42:106] with sequences of the matching burst type; the "
-                "generators place the training sequence at exactly those offsets in 148-bit bursts; the sequence table equals the reference copy. pick() is additionally folded for 30 witness bursts against the reference (first member in definition order whose sequence equals the slice at the position of its burst type); the path-loss term is a constant or a constructor-only attribute of the recipient.",
+                "generators place the training sequence at exactly those offsets in 148-bit bursts; the sequence table equals the reference copy. pick() is additionally folded for 30 witness bursts against the reference (first member in definition order whose sequence equals the slice at the position of its burst type); the path-loss term is a constant or a constructor-only attribute of the recipient. R5: a rejected FAKE_TOA / FAKE_RSSI / FAKE_CI command (status != 0 or ValueError) changes no simulated radio setting (handler folded over argument witnesses of both forms); TxMsg.trans folded over {requested version None/0/1} x {own version} x {burst or not}.",
         "note": TB + "Not decided: numeric values for concrete configurations; randomised values beyond their window bounds; the training-sequence reference is the tree's own content for entries not cross-read against TS 45.002 (detects change).",
     },
 }
